@@ -56,3 +56,21 @@ twin("C17", "overlap-canonical", [("core/annotation_db.py", '''            cond 
             ]
             cond = " OR ".join(cond)''', '''            cond = f"start < {stop} AND stop > {start}"''')])
 twin("C17", "gff-offset-respelled", [("parse/gff.py", "start, end = int(start) - 1, int(end)", "start = int(start)\n        end = int(end)\n        start = start - 1")])
+
+# ---------------------------------------------------------------- C19
+brk("C19", "unlink-then-rename", "R19.1", [("util/io.py", "        src.replace(dest)\n        shutil.rmtree(src.parent)", "        try:\n            dest.unlink()\n        except FileNotFoundError:\n            pass\n        finally:\n            src.rename(dest)\n\n        shutil.rmtree(src.parent)")], names="dest.unlink()")
+brk("C19", "missing-ok-unlink", "R19.1", [("util/io.py", "        src.replace(dest)\n        shutil.rmtree(src.parent)", "        dest.unlink(missing_ok=True)\n        src.rename(dest)\n        shutil.rmtree(src.parent)")], names="dest.unlink")
+brk("C19", "tmpdir-not-removed", "R19.1", [("util/io.py", "        src.replace(dest)\n        shutil.rmtree(src.parent)", "        src.replace(dest)")], names="temp dir")
+brk("C19", "handler-unlinks", "R19.2", [("format/alignment.py", "        write_alignment_to_file(f, alignment, format, **kw)\n", "        try:\n            write_alignment_to_file(f, alignment, format, **kw)\n        except Exception:\n            import os\n            os.remove(filename)\n            raise\n")], names="save_to_filename")
+brk("C19", "tree-handler-unlinks", "R19.2", [("core/tree.py", "        with atomic_write(filename, mode=\"wt\") as outf:\n            outf.writelines(data)", "        try:\n            with atomic_write(filename, mode=\"wt\") as outf:\n                outf.writelines(data)\n        except OSError:\n            Path(filename).unlink(missing_ok=True)\n            raise")], names="TreeNode.write")
+brk("C19", "table-bare-atomic-write", "R19.3", [("util/table.py", "        with atomic_write(filename, mode=mode) as outfile:\n            if writer:", "        outfile = atomic_write(filename, mode=mode)\n        if True:\n            if writer:")], names="Table.write")
+brk("C19", "dictarray-bare", "R19.3", [("util/dict_array.py", "        with atomic_write(path, mode=\"wt\") as outfile:\n            outfile.write(data)", "        outfile = atomic_write(path, mode=\"wt\")\n        outfile.write(data)\n        outfile.close()")], names="DictArray.write")
+brk("C19", "exit-commits-on-error", "R19.3", [("util/io.py", "        if exc_type is None:\n            self._close_func(self._tmppath)", "        if exc_type is None or True:\n            self._close_func(self._tmppath)")], names="commit only on success")
+brk("C19", "exit-no-cleanup", "R19.3", [("util/io.py", "            self.succeeded = False\n            shutil.rmtree(self._tmppath.parent)", "            self.succeeded = False")], names="cleanup on failure")
+brk("C19", "json-direct-open", "R19.4", [("core/tree.py", "            with atomic_write(filename, mode=\"wt\") as f:\n                f.write(self.to_json())\n            return\n\n        xml =", "            with open(filename, \"w\") as f:\n                f.write(self.to_json())\n            return\n\n        xml =")], names="TreeNode.write")
+brk("C19", "resume-skip-removed", "R19.5", [("app/composable.py", "        if input_id in self.data_store:\n            # we are assuming that this query returns True only when\n            # an input_id is completed, we will not hit this if not_completed\n            continue\n", "")], names="resume skip")
+brk("C19", "resume-skip-after-insert", "R19.5", [("app/composable.py", "        if input_id in self.data_store:\n            # we are assuming that this query returns True only when\n            # an input_id is completed, we will not hit this if not_completed\n            continue\n        inputs[input_id] = m", "        inputs[input_id] = m\n        if input_id in self.data_store:\n            continue")], names="resume skip")
+brk("C19", "schedules-raw-input", "R19.5", [("app/composable.py", "    inputs = _proxy_input(inputs.values())\n    for result in self.as_completed(\n        inputs,", "    inputs = _proxy_input(inputs.values())\n    for result in self.as_completed(\n        dstore,")], names="schedules")
+twin("C19", "bare-with-finally-exit", [("util/dict_array.py", "        with atomic_write(path, mode=\"wt\") as outfile:\n            outfile.write(data)", "        aw = atomic_write(path, mode=\"wt\")\n        with aw as outfile:\n            outfile.write(data)")])
+twin("C19", "os-replace", [("util/io.py", "        src.replace(dest)\n", "        import os\n\n        os.replace(src, dest)\n")])
+twin("C19", "exit-respelled", [("util/io.py", "        if exc_type is None:\n            self._close_func(self._tmppath)\n            self.succeeded = True\n        else:\n            self.succeeded = False\n            shutil.rmtree(self._tmppath.parent)", "        if exc_type is not None:\n            self.succeeded = False\n            shutil.rmtree(self._tmppath.parent)\n        else:\n            self._close_func(self._tmppath)\n            self.succeeded = True")])
